@@ -280,7 +280,7 @@ func TestC03(t *testing.T) {
 		})
 	}
 
-	st.Rapid(t, "random-fragment", cfg.N(8000, 600000), func(rt *rapid.T) {
+	st.Rapid(t, "random-fragment", cfg.N(6000, 600000), func(rt *rapid.T) {
 		fs := genFields(rt)
 		tree := genFragNode(rt, fs, 0)
 		var defs []FieldDef
